@@ -223,23 +223,29 @@ func (cli *Client) handshake(c diam.Conn) (diam.Conn, error) {
 	for i := 0; i < (int(cli.MaxRetransmits) + 1); i++ {
 		_, err := m.WriteTo(c)
 		if err != nil {
+			vevent("hs.writefail", c)
 			c.Close()
 			return nil, err
 		}
+		vevent("hs.send", c, i)
 		select {
 		case err, ok := <-errc: // Wait for CEA.
 			if ok && err != nil {
+				vevent("hs.fail", c)
 				close(errc)
 				c.Close()
 				return nil, err
 			}
+			vevent("hs.ok", c)
 			if cli.EnableWatchdog {
 				go cli.watchdog(c, dwac)
 			}
 			return c, nil
 		case <-time.After(cli.RetransmitInterval):
+			vevent("hs.timer", c, i)
 		}
 	}
+	vevent("hs.timeout", c)
 	c.Close()
 	return nil, ErrHandshakeTimeout
 }
@@ -304,18 +310,24 @@ func (cli *Client) dwr(c diam.Conn, osid uint32, dwac chan struct{}) {
 	case <-dwac:
 	default:
 	}
+	vevent("wd.round", c)
 	for i := 0; i < (int(cli.MaxRetransmits) + 1); i++ {
 		_, err := m.WriteToStream(c, cli.WatchdogStream)
 		if err != nil {
+			vevent("wd.writefail", c)
 			return
 		}
+		vevent("wd.send", c, i)
 		select {
 		case <-dwac:
+			vevent("wd.ack", c)
 			return
 		case <-time.After(cli.RetransmitInterval):
+			vevent("wd.timer", c, i)
 		}
 	}
 	// Watchdog failed, disconnect.
+	vevent("wd.close", c)
 	c.Close()
 }
 
